@@ -16,7 +16,7 @@
    NOT PROVED (correspondence + oracle only): fields, dynamic-length types, explicit or bit
    positions, BYTE-SIZE, length keys (see DESIGN.md, "partial"). *)
 From Coq Require Import ZArith List Bool.
-From OV Require Import Base.Bytes Base.Wire Generated Model.Str Model.Codec Proofs.BytesProofs Proofs.AtomicProofs Proofs.CodecProps Proofs.FlatProofs Proofs.TreeProofs Proofs.TreeWireProofs Proofs.FieldProofs Proofs.DynFieldProofs Proofs.PadProofs Proofs.EopFieldProofs Proofs.BStructProofs Proofs.LinearLeafProofs Proofs.ReservedProofs Proofs.BitFieldProofs Proofs.LeafKindsProofs.
+From OV Require Import Base.Bytes Base.Wire Generated Model.Str Model.Codec Proofs.BytesProofs Proofs.AtomicProofs Proofs.CodecProps Proofs.FlatProofs Proofs.TreeProofs Proofs.TreeWireProofs Proofs.FieldProofs Proofs.DynFieldProofs Proofs.PadProofs Proofs.EopFieldProofs Proofs.BStructProofs Proofs.MuxProofs Proofs.LinearLeafProofs Proofs.ReservedProofs Proofs.BitFieldProofs Proofs.LeafKindsProofs.
 Import ListNotations.
 Open Scope Z_scope.
 
@@ -374,6 +374,65 @@ Example C01_byte_size_structure_example :
   decode_msg (map m_p (rms (mk 3))) (rbytes (mk 3)) = Ok (VDict (out_dict (rms (mk 3)))).
 Proof. exact bstruct_example. Qed.
 Print Assumptions C01_byte_size_structure_example.
+
+(* ---------- multiplexers (Proofs/MuxProofs.v) ---------- *)
+(* a MUX with an unsigned switch key of up to 64 bits at its start and the case content directly behind the key: a case
+   selected by name -- the name is unique among the cases, and the case is the first one whose key range holds its own
+   lower limit -- whose structure consists of good members is a good member: the key (= the lower limit) and the bytes
+   of the members are appended, decoding returns the name of the case and the members' values.  Case structures may
+   hold multiplexers, multiplexers may sit in structures and fields, to any depth. *)
+Theorem C01_multiplexer_member : forall k nm kbl hl cases dflt c rs,
+  0 < kbl <= 64 ->
+  filter (fun c' => bytes_eqb (mc_name c') (mc_name c)) cases = [c] ->
+  find (mc_applies (mc_lo c)) cases = Some c ->
+  0 <= mc_lo c < 2 ^ kbl ->
+  mc_struct c = Some (DStruct (map m_p (rms rs)) None) ->
+  (forall x, In x rs -> rgood k x) -> NoDup (map m_name (rms rs)) ->
+  rgood (4 + k) (mux_rm nm kbl hl cases dflt c rs).
+Proof. exact mux_rgood. Qed.
+Print Assumptions C01_multiplexer_member.
+
+Theorem C01_multiplexer_values : forall nm kbl hl cases dflt c rs,
+  m_p (r_m (mux_rm nm kbl hl cases dflt c rs)) =
+    P nm None None (KValue (DMux (nbytes_of kbl 0) 0 0 (DSimple (Std BUint None hl kbl None) CIdent BUint) cases dflt) None) /\
+  m_in (r_m (mux_rm nm kbl hl cases dflt c rs)) = Some (VList [VStr (mc_name c); VDict (in_dict (rms rs))]) /\
+  m_out (r_m (mux_rm nm kbl hl cases dflt c rs)) = VList [VStr (mc_name c); VDict (out_dict (rms rs))].
+Proof. intros. repeat split. Qed.
+Print Assumptions C01_multiplexer_values.
+
+Example C01_multiplexer_premises :
+  let u8 nm := mkF nm 8 BUint None true BUint None in
+  let u16 nm := mkF nm 16 BUint None true BUint None in
+  let vv (z : Z) := fun _ : name => VInt z in
+  let in1 := [leaf_rm (u8 [97]) (vv 7) (wire_bytes (u8 [97]) 7); leaf_rm (u16 [98]) (vv 258) (wire_bytes (u16 [98]) 258)] in
+  let in2 := [leaf_rm (u8 [99]) (vv 200) (wire_bytes (u8 [99]) 200)] in
+  let c1 := MC [120] 16 31 (Some (DStruct (map m_p (rms in1)) None)) in
+  let c2 := MC [121] 32 32 (Some (DStruct (map m_p (rms in2)) None)) in
+  let rs := [leaf_rm (mkF [115] 8 BUint None true BUint (Some (VInt 34))) (vv 34) (wire_bytes (mkF [115] 8 BUint None true BUint (Some (VInt 34))) 34);
+             mux_rm [109] 8 true [c1; c2] None c1 in1;
+             leaf_rm (u8 [122]) (vv 9) (wire_bytes (u8 [122]) 9)] in
+  (forall x, In x rs -> rgood 6 x) /\ NoDup (map m_name (rms rs)) /\ (6 + 1 <= fuel_of (map m_p (rms rs)))%nat.
+Proof. exact mux_premises. Qed.
+Print Assumptions C01_multiplexer_premises.
+
+Example C01_multiplexer_example :
+  let u8 nm := mkF nm 8 BUint None true BUint None in
+  let u16 nm := mkF nm 16 BUint None true BUint None in
+  let vv (z : Z) := fun _ : name => VInt z in
+  let in1 := [leaf_rm (u8 [97]) (vv 7) (wire_bytes (u8 [97]) 7); leaf_rm (u16 [98]) (vv 258) (wire_bytes (u16 [98]) 258)] in
+  let in2 := [leaf_rm (u8 [99]) (vv 200) (wire_bytes (u8 [99]) 200)] in
+  let c1 := MC [120] 16 31 (Some (DStruct (map m_p (rms in1)) None)) in
+  let c2 := MC [121] 32 32 (Some (DStruct (map m_p (rms in2)) None)) in
+  let mk c rs := [leaf_rm (mkF [115] 8 BUint None true BUint (Some (VInt 34))) (vv 34) [34];
+                  mux_rm [109] 8 true [c1; c2] None c rs;
+                  leaf_rm (u8 [122]) (vv 9) [9]] in
+  rbytes (mk c1 in1) = [34; 16; 7; 1; 2; 9] /\ rbytes (mk c2 in2) = [34; 32; 200; 9] /\
+  encode_msg (map m_p (rms (mk c1 in1))) None (VDict (in_dict (rms (mk c1 in1)))) = Ok (rbytes (mk c1 in1), false) /\
+  decode_msg (map m_p (rms (mk c1 in1))) (rbytes (mk c1 in1)) = Ok (VDict (out_dict (rms (mk c1 in1)))) /\
+  encode_msg (map m_p (rms (mk c2 in2))) None (VDict (in_dict (rms (mk c2 in2)))) = Ok (rbytes (mk c2 in2), false) /\
+  decode_msg (map m_p (rms (mk c2 in2))) (rbytes (mk c2 in2)) = Ok (VDict (out_dict (rms (mk c2 in2)))).
+Proof. exact mux_example. Qed.
+Print Assumptions C01_multiplexer_example.
 
 (* ---------- LINEAR computational methods at message level (Proofs/LinearLeafProofs.v) ---------- *)
 (* physical = offset + factor * internal (integer coefficients, any non-zero factor, optional internal limits) on an
